@@ -63,6 +63,9 @@ pub struct Job {
     /// C19: a C translation unit compiled by the host gcc and linked with the object
     #[serde(default)]
     pub c_source: String,
+    /// C26: record the history of the inference scheduler (hir_ty::verif_trace)
+    #[serde(default)]
+    pub sched: bool,
 }
 fn default_main() -> String {
     "main.capy".into()
@@ -130,6 +133,9 @@ pub struct JobResult {
     /// set by the parent when the child exited without a result: the end of what it printed
     #[serde(default)]
     pub compiler_stdout_tail: String,
+    /// C26: scheduler events of the inference loop, one per line (tab separated)
+    #[serde(default)]
+    pub sched: Vec<String>,
     pub wall_ms: u64,
 }
 
@@ -479,6 +485,13 @@ pub fn run_job(job: &Job, progress_path: &Path) -> JobResult {
         )
         .finish(entry_point, job.track_unsafe)
     });
+    {
+        // the scheduler history is recorded whether or not inference panicked
+        let events = hir_ty::verif_trace::take();
+        if job.sched {
+            res.sched = events;
+        }
+    }
     let Some(InferenceResult {
         tys,
         diagnostics: ty_diags,
